@@ -32,6 +32,11 @@ BASE = {
                               "res /items on get -> <paged> :: <status=500, tag str>;\n"},
         "inline": ["item", "paged"], "identity": ["item", "paged"], "module": ["item", "page", "wrap"],
     },
+    "forwarding-functions": {
+        "files": {"main.oal": "let pair x y = { 'first x, 'second y };\nlet wrap v = pair int v;\nlet flip a b = pair b a;\nlet tagged item = pair uri item;\n"
+                              "let both u w = { 'l wrap u, 'r flip w u };\nres /f on get -> <wrap str> :: <status=404, flip bool num> :: <status=500, tagged int> :: <status=501, both str bool>;\n"},
+        "inline": [], "identity": [], "module": ["pair", "wrap", "flip"],
+    },
     "recursion": {
         "files": {"main.oal": "let leaf = { 'v num };\nlet tree = { 'node leaf, 'kids [tree] };\nlet chain = rec n { 'next? n, 'leaf leaf };\nlet @named = { 'tree tree, 'chain chain };\n"
                               "res /t on get -> <tree> :: <status=404, @named>;\n"},
@@ -64,6 +69,7 @@ def variants(name, spec):
     v["parenthesised"] = {**files, "main.oal": rw.parenthesise(src)}
     v["primitives-named"] = {**files, "main.oal": rw.name_primitives(src)}
     v["renamed"] = {**files, "main.oal": rw.rename(src)}
+    v["parameters-renamed-to-clash"] = {**files, "main.oal": rw.canonical_parameters(src)}
     for how in ("reversed", "rotated", "res-first"):
         v["permuted-" + how] = {**files, "main.oal": rw.permute(src, how)}
     if spec.get("inline"):
@@ -213,6 +219,14 @@ def check():
                 structural("eval_binding: a parameter evaluates to the very value that was bound to it (only the annotation is extended)",
                            len(lk) == 1 and ms.proj(ms.proj(p.ret, ("v", "Ok"), E), ("f", 0), E)[0] == "aggr" and
                            ms.proj(ms.proj(ms.proj(p.ret, ("v", "Ok"), E), ("f", 0), E), ("f", 0), E) == ms.proj(ms.proj(ms.proj(lk[0][3], ("v", "Some"), E), ("f", 0), E), ("f", 0), E))
+    except KeyError as exn:
+        o.inconc(str(exn)[:200])
+
+    # a single-use function applied to an expression, and renaming of parameters, are free only if the arguments are
+    # evaluated where they are written: in the caller's context (shared with C08)
+    try:
+        import props.c08 as c08
+        c08.application_lemmas(o, M, E, M.one(r"^(eval::)?eval_application$"), structural)
     except KeyError as exn:
         o.inconc(str(exn)[:200])
 
